@@ -18,6 +18,7 @@ list_tags: C14) are functions of the heap that return results, not heaps, so the
 `readOnly` effect by construction.
 -/
 import FiddleModel.Lemmas.CopyL
+import FiddleModel.Lemmas.CodegenL
 
 namespace Fiddle
 
@@ -63,6 +64,27 @@ theorem C17_sequences (calls : List (Effect × Heap)) (h : Heap) (i : Nat) (hi :
     have hlen : i < (applyEffect c.1 h c.2).length := by
       cases c.1 <;> simp [applyEffect] <;> omega
     rw [ih _ hlen, C17_objects_unchanged c.1 h c.2 i hi]
+
+/-! ## The heap-transforming operations of the model have these effects
+
+For the operations whose model *is* a heap transformer the effect is a theorem, not an
+observation: deep copies, shallow copies / casts, and the execution of generated code (the way
+a configuration printed by a code generator comes back) only append to the heap. -/
+
+theorem C17_deepcopy_is_alloc_only (h : Heap) :
+    h.deepcopy = applyEffect .allocOnly h (h.map (shiftObj h.length)) := rfl
+
+theorem C17_shallow_copy_is_alloc_only (h : Heap) (i : Nat) (bk : Option String) :
+    ∃ new, h.shallowCopy i bk = applyEffect .allocOnly h new := by
+  unfold Heap.shallowCopy applyEffect
+  cases h[i]? with
+  | none => exact ⟨[], by simp⟩
+  | some o => exact ⟨_, rfl⟩
+
+theorem C17_generated_code_is_alloc_only (e : CExpr) (env : CEnv) (h : Heap) (v : GVal) (h' : Heap)
+    (he : e.eval env h = some (v, h')) : ∃ new, h' = applyEffect .allocOnly h new := by
+  obtain ⟨t, rfl⟩ := CExpr.eval_prefix e env h v h' he
+  exact ⟨t, rfl⟩
 
 example : ((applyEffect .allocOnly [{ kind := .list }] [{ kind := .dict }])[0]?).map (·.kind) =
     some .list := by decide
